@@ -33,6 +33,10 @@ pub struct Monitor {
     /// delivered valid timeouts: round -> signer ids
     timeouts_in: HashMap<u64, HashSet<u64>>,
     batches: HashSet<[u8; 32]>,
+    /// digests the node's own mempool handed to its proposer (C13)
+    digests_given: Vec<[u8; 32]>,
+    /// every payload digest of a block the node was shown or proposed itself
+    payload_seen: HashSet<[u8; 32]>,
     // the node's own emissions, in order
     own_votes: Vec<Vote>,
     own_timeouts: Vec<Timeout>,
@@ -67,6 +71,8 @@ impl Monitor {
             votes_in: HashMap::new(),
             timeouts_in: HashMap::new(),
             batches: HashSet::new(),
+            digests_given: vec![],
+            payload_seen: HashSet::new(),
             own_votes: vec![],
             own_timeouts: vec![],
             own_proposals: vec![],
@@ -149,11 +155,20 @@ impl Monitor {
     /// What the stimulus shows the node (only what an honest verifier would accept counts).
     fn absorb_stimulus(&mut self, u: &mut Universe, s: &Stim) {
         match s {
-            Stim::Batch(d) | Stim::Digest(d) => {
+            Stim::Batch(d) => {
                 self.batches.insert(d.0);
+            }
+            Stim::Digest(d) => {
+                self.batches.insert(d.0);
+                if !self.digests_given.contains(&d.0) {
+                    self.digests_given.push(d.0);
+                }
             }
             Stim::Msg(ConsensusMessage::Propose(b)) => {
                 self.blocks.insert(b.digest().0, b.clone());
+                for d in &b.payload {
+                    self.payload_seen.insert(d.0);
+                }
                 if Self::valid_block(u, b) && u.key_id(&b.author) == leader_of(self.n, b.round) {
                     let q = b.qc.clone();
                     self.note_qc(&q);
@@ -343,8 +358,11 @@ impl Monitor {
                 rep.finding("impl_vs_property", "C19:qc-entry-without-vote", format!("QC of round {} contains a vote of {} that was never delivered", q.round, id), replay.clone());
             }
         }
-        let q2 = q.clone();
-        self.note_qc(&q2);
+        // only a certificate that verifies is evidence for anything (rounds entered, commits)
+        if Self::valid_qc(u, q) {
+            let q2 = q.clone();
+            self.note_qc(&q2);
+        }
     }
 
     /// Feed one stimulus (None = boot) and the node's reaction to it.
@@ -438,6 +456,16 @@ impl Monitor {
                         let q = b.qc.clone();
                         self.check_assembled_qc(u, rep, replay, &q);
                         self.max_qc_sent = self.max_qc_sent.max(b.qc.round);
+                        // C13: everything its mempool handed over and no block has carried yet goes into
+                        // this proposal (the proposer drains its whole buffer)
+                        for d in &b.payload {
+                            self.payload_seen.insert(d.0);
+                        }
+                        let missing = self.digests_given.iter().filter(|d| !self.payload_seen.contains(*d)).count();
+                        if missing > 0 {
+                            rep.finding("impl_vs_property", "C13:digest-never-proposed", format!("own proposal of round {} carries {} digests, but {} digests handed over by the node's mempool before it are in no block the node has seen or made: they were dropped from the proposer's buffer", b.round, b.payload.len(), missing), replay.clone());
+                        }
+                        self.digests_given.retain(|d| !self.payload_seen.contains(d));
                         self.own_proposals.push(b.clone());
                     } else {
                         // a helper reply: must be exactly a block it was given / stored
